@@ -1,0 +1,10 @@
+//go:build verif
+
+// Contracts for the deductive verifier under /verif (comment-only file).
+package types
+
+//@ func NewStateMachine assumed "sync.Pool.Get returns an object made by New or one previously Put: a non-nil *StateMachine"
+//@   ensures result != nil
+
+//@ func FreeStateMachine assumed "sync.Pool.Put retains the object; no other effect"
+//@   requires fsm != nil
